@@ -1,7 +1,7 @@
 (* C12 — default (colour-optimised) saving never changes the rendered picture.
    Statements only; proofs in Proofs/ColorOptProofs.v. *)
-From Coq Require Import NArith List Bool.
-From IE Require Import Gen.Codepage Gen.Fonts Model.Attr Model.ColorOpt Model.ColorOptDoc Model.FontData Proofs.ColorOptProofs.
+From Coq Require Import ZArith NArith List Bool.
+From IE Require Import Gen.Codepage Gen.Fonts Model.Attr Model.ColorOpt Model.ColorOptDoc Model.FontData Proofs.ColorOptProofs Proofs.ColorOptCompositeProofs.
 Import ListNotations.
 Local Open Scope N_scope.
 
@@ -44,6 +44,21 @@ Qed.
 Theorem font_table_ok : forall l,
   forallb (fun e => let '(_, w, h, g) := e in font_ok_b w h g) l = true -> fonts_ok (fonts_of_list l).
 Proof. exact fonts_of_list_ok. Qed.
+
+(* ---- tie to the compositing model of property C13 (Model/Composite.v) ---- *)
+(* Buffer::get_char on the single opaque Normal layer that flat_clone builds returns [reflat] of the stored cell *)
+Theorem flat_layer_get_char : forall term fonts w h rows x y line c,
+  (0 <= x < w)%Z -> (0 <= y < h)%Z -> (w <= 2147483647)%Z -> (h <= 2147483647)%Z ->
+  nth_error rows (Z.to_nat y) = Some line -> nth_error line (Z.to_nat x) = Some c ->
+  (C.is_visible c = true -> C.has_transparent_colour c = false) ->
+  C.get_char (flat_buffer term fonts w h rows) x y = Some (creflat c) /\ conv (creflat c) = reflat (conv c).
+Proof. intros. split; [eapply flat_get_char_proof; eassumption|apply conv_creflat]. Qed.
+
+(* every cell Buffer::get_char yields for a stack of Normal-mode layers made by Layer::new (default font page 0)
+   without transparent colours is well-formed in the sense document_render_preserved needs *)
+Theorem composite_cells_wf : forall B px py c,
+  Forall plain_layer (C.b_layers B) -> C.get_char B px py = Some c -> wf_cell (conv c).
+Proof. exact composite_cells_wf_proof. Qed.
 
 (* ---- non-vacuity ---- *)
 Definition f0 : list (N * N * N * list N) :=
